@@ -1204,6 +1204,8 @@ func checkC18(res *Result) {
 			res.bad("C18-R3", pm.G.Dir, "-", "Len exists", "missing")
 		}
 	}
+	res.Rule("C18-R4", "GetType / SetType are total, uncrossed dispatch tables over the element's type-valued kinds")
+	checkTypeAccessorTables(res, "C18-R4", nil)
 	res.Count("non-functional properties", nNF, 42)
 	res.Count("container methods interpreted", nMethods, 400)
 	res.Count("property packages", len(M.Props), 100)
